@@ -287,3 +287,41 @@ func (w *World) intrinsicWrites(x *Exec, name string, out map[string]bool) bool 
 	}
 	return false
 }
+
+// fnLocks returns the names (Type.field) of the mutex fields a function may acquire, transitively.
+func (w *World) fnLocks(fn *ssa.Function, seen map[*ssa.Function]bool) map[string]bool {
+	out := map[string]bool{}
+	if fn == nil || seen[fn] || fn.Pkg == nil || !w.P.Verified[fn.Pkg.Pkg.Path()] {
+		return out
+	}
+	seen[fn] = true
+	for _, b := range fn.Blocks {
+		for _, in := range b.Instrs {
+			var c *ssa.CallCommon
+			switch i := in.(type) {
+			case *ssa.Call:
+				c = &i.Call
+			case *ssa.Defer:
+				c = &i.Call
+			}
+			if c == nil || c.IsInvoke() {
+				continue
+			}
+			callee := c.StaticCallee()
+			if callee == nil {
+				continue
+			}
+			switch callee.String() {
+			case "(*sync.Mutex).Lock", "(*sync.RWMutex).Lock", "(*sync.RWMutex).RLock":
+				if n, _ := fieldOfAddr(c.Args[0]); n != "" {
+					out[n] = true
+				}
+				continue
+			}
+			for k := range w.fnLocks(callee, seen) {
+				out[k] = true
+			}
+		}
+	}
+	return out
+}
